@@ -637,8 +637,8 @@ func checkUnconditionalAppend(m *Model, r *RuleResult, info *types.Info, fd *ast
 // ---------- PAIR-4 ----------
 
 func runPair4(m *Model, r *RuleResult) {
-	rf := m.SSAFunc("internal/phase5", "reduceForward")
-	mg := m.SSAFunc("internal/phase5", "mergeLongEdges")
+	rf := m.anchorChainMerge()
+	mg := m.anchorMerge()
 	if rf == nil || mg == nil {
 		r.undecided("anchors", "-", "phase5.reduceForward / mergeLongEdges", "not found")
 		return
